@@ -5,8 +5,18 @@ From C21 Require Import C21Spec C21_gen C21_table C21ProofsT1 C21ProofsT2.
 Import ListNotations.
 Local Open Scope R_scope.
 
-Lemma ortho_table_ok : Forall (combo_ok ortho3d) ortho_table.
-Proof. rewrite <- (firstn_skipn 18 ortho_table). apply Forall_app. split; [exact ortho_table_ok_1 | exact ortho_table_ok_2]. Qed.
+(* every row but the ALTERED axisymmetrical generalised plane stress ones (C21ProofsAgps.v / C21ProofsAgpsRefuted.v) *)
+Lemma ortho_table_rest_ok : Forall (combo_ok ortho3d) ortho_table_rest.
+Proof. rewrite <- (firstn_skipn 17 ortho_table_rest). apply Forall_app. split; [exact ortho_table_ok_1 | exact ortho_table_ok_2]. Qed.
+
+(* a list is covered by a filter and its complement *)
+Lemma Forall_filter_split (P : combo -> Prop) (f : combo -> bool) (l : list combo) :
+  Forall P (filter f l) -> Forall P (filter (fun e => negb (f e)) l) -> Forall P l.
+Proof.
+  induction l as [|x l IH]; intros H1 H2; [constructor|]. cbn in H1, H2. destruct (f x); cbn in H2.
+  - inversion H1; subst. constructor; [assumption | apply IH; assumption].
+  - inversion H2; subst. constructor; [assumption | apply IH; assumption].
+Qed.
 
 Lemma ortho_table_complete : keys_complete (map combo_key ortho_table) = true.
 Proof. vm_compute. reflexivity. Qed.
